@@ -135,8 +135,11 @@ fn real_main() {
         }
         "proto" => {
             let script = std::fs::read_to_string(&a["script"]).expect("script");
-            let events = proto::run_script(&script, seed);
+            let (events, atoms) = proto::run_script2(&script, seed);
             write_events(&a["out"], &events);
+            if let Some(p) = a.get("atoms-out") {
+                write_events(p, &atoms);
+            }
         }
         _ => {
             eprintln!("usage: zkverif <proto> --script F --out F [--seed N]");
